@@ -89,7 +89,7 @@ func (s *Store) FileTree(c cid.Cid, at int64) (*FileNode, error) {
 	}
 	fn := &FileNode{Cid: c, Start: at, Info: bi}
 	if !bi.IsPB {
-		fn.End = at + int64(len(bi.Raw)-s.RawEnvelope) // (the stored block may carry an envelope around the content)
+		fn.End = at + int64(len(bi.Raw)-s.rawOverhead(bi.Raw)) // (the stored block may carry an envelope around the content)
 		return fn, nil
 	}
 	if len(bi.Links) == 0 {
